@@ -18,6 +18,7 @@ from __future__ import annotations
 
 import concurrent.futures as cf
 import hashlib
+import copy
 import json
 import multiprocessing as mp
 import os
@@ -190,6 +191,8 @@ class EvRun(Run):
         from stabilize.events import get_event_bus
 
         get_event_bus().subscribe("verif-sync", self._on_pub)     # synchronous subscriber
+        if self.prog.get("audit"):                                # a subscriber that REACTS by recording a follow-up event
+            get_event_bus().subscribe("verif-audit", self._on_audit)
         self.quiet = q
 
     def _wrap(self) -> None:
@@ -320,6 +323,41 @@ class EvRun(Run):
         self.bus_log.append(row)
         self.emit({"e": "pub", "ev": ev_rec(row)})
 
+    def _on_audit(self, event) -> None:
+        """Audit-trail subscriber (Events.tla AuditRecord): a follow-up status.changed event through the real recorder."""
+        if event.event_type.value not in self.prog["audit"]:
+            return
+        from stabilize.events import get_event_recorder
+        from stabilize.models.status import WorkflowStatus
+
+        get_event_recorder().record_status_change(event.entity_type, event.entity_id, event.workflow_id,
+                                                  WorkflowStatus.RUNNING, WorkflowStatus.SUCCEEDED,
+                                                  source_handler="verif-audit")
+
+    def deliver(self, qid=None, ack: bool = True, lookup_fault: bool = False) -> bool:
+        """faults['threaded']: every delivery runs on a FRESH worker thread (its own thread-local connections, its
+        first event append on that thread), which is what a pool of queue workers does; the harness waits for it."""
+        if not self.faults.get("threaded"):
+            return super().deliver(qid, ack, lookup_fault)
+        import threading
+
+        box: dict = {}
+
+        def body():
+            try:
+                box["r"] = Run.deliver(self, qid, ack, lookup_fault)
+            except BaseException as e:  # noqa: BLE001  (VerifCrash is a BaseException)
+                box["e"] = e
+            finally:
+                core.close_thread_connections()
+
+        th = threading.Thread(target=body, name="verif-worker")
+        th.start()
+        th.join()
+        if "e" in box:
+            raise box["e"]
+        return box["r"]
+
     def crash_restart(self) -> None:
         """After VerifCrash propagated: drop everything a killed process loses (open transaction,
         deferred publications, recorder, bus), build a fresh worker with event sourcing configured."""
@@ -416,7 +454,8 @@ def prog_header(prog: dict) -> dict:
             "stageOf": {t["name"]: s["ref"] for s in stages for t in s["tasks"]},
             "cof": [s["ref"] for s in stages if s["cof"]],
             "nofailp": [s["ref"] for s in stages if not s["failp"]],
-            "top": [s["ref"] for s in stages if not s["parent"]]}
+            "top": [s["ref"] for s in stages if not s["parent"]],
+            "audit": list(prog.get("audit") or [])}
 
 
 # =================================================================================================
@@ -650,7 +689,7 @@ def validate_batch(traces: list[dict], props: list[str], tag: str = "ev", timeou
 # =================================================================================================
 # TLC: model checking of Events.tla on its own
 # =================================================================================================
-def mc_program(name: str, shape: dict[str, list[str]], cof=(), nofailp=()) -> str:
+def mc_program(name: str, shape: dict[str, list[str]], cof=(), nofailp=(), audit=()) -> str:
     """Literal TLA+ record for a small program: shape = {stage: [task names]}."""
     stages = list(shape)
     tasks = [t for s in stages for t in shape[s]]
@@ -661,7 +700,7 @@ def mc_program(name: str, shape: dict[str, list[str]], cof=(), nofailp=()) -> st
 
     return (f'[name |-> "{name}", stages |-> {tset(stages)}, tasks |-> {tset(tasks)}, '
             f'taskSeq |-> <<{", ".join(chr(34) + t + chr(34) for t in tasks)}>>, stageOf |-> ({so}), '
-            f'cof |-> {tset(cof)}, nofailp |-> {tset(nofailp)}, top |-> {tset(stages)}]')
+            f'cof |-> {tset(cof)}, nofailp |-> {tset(nofailp)}, top |-> {tset(stages)}, audit |-> {tset(audit)}]')
 
 
 MC_PROGRAMS = {
@@ -670,12 +709,13 @@ MC_PROGRAMS = {
     "s2t11": mc_program("s2t11", {"a": ["a.1"], "b": ["b.1"]}),
     "s2t21": mc_program("s2t21", {"a": ["a.1", "a.2"], "b": ["b.1"]}),
     "s2cof": mc_program("s2cof", {"a": ["a.1"], "b": ["b.1"]}, cof=["a"]),
+    "s1t1audit": mc_program("s1t1audit", {"a": ["a.1"]}, audit=["stage.completed", "task.completed", "stage.failed"]),
 }
 # specification action -> name of its coverage line (MC_Events wraps the parameterised ones)
 MC_ACTIONS = {"Begin": "BeginEnv", "Return": "Return", "Raise": "MC_Raise", "StartWorkflowCommit": "StartWorkflowCommit",
               "StartStageClaim": "StartStageClaim", "StartStagePlan": "StartStagePlan", "StartTaskCommit": "StartTaskCommit",
               "CancelStageCommit": "CancelStageCommit", "ForceCommit": "Force", "AppendInTxn": "MC_AppendInTxn",
-              "RecordOwn": "MC_RecordOwn", "Publish": "Publish", "CompleteTaskCommit": "CompleteTaskCommit",
+              "RecordOwn": "MC_RecordOwn", "Publish": "Publish", "AuditRecord": "AuditRecord", "CompleteTaskCommit": "CompleteTaskCommit",
               "CompleteStageCommit": "CompleteStageCommit", "CompleteStageErrorCommit": "CompleteStageErrorCommit",
               "SkipStageCommit": "SkipStageCommit", "CompleteWorkflowCommit": "CompleteWorkflowCommit",
               "Rollback": "MC_Rollback", "Crash": "MC_Crash"}
@@ -806,7 +846,21 @@ EXCLUDED = {"transientinf"}     # never quiesces (known C14 finding: unbounded t
 def programs_for(pid: str, tier: str) -> tuple[list[dict], list[dict]]:
     core_ = [p for p in core_family() if p["name"] not in EXCLUDED]
     extra_ = [p for p in extra_family() if p["name"] not in EXCLUDED]
+    if pid == "C13":
+        # the same programs with a bus subscriber that reacts to completions by recording a follow-up event
+        # through the real recorder (Events.tla AuditRecord): what it is handed must be committed already
+        names = AUDIT_QUICK if tier == "quick" else [p["name"] for p in core_]
+        for p in core_:
+            if p["name"] in names:
+                q = copy.deepcopy(p)
+                q["name"] = p["name"] + "_audit"
+                q["audit"] = ["stage.completed", "task.completed", "stage.failed"]
+                extra_.append(q)
     return core_, extra_
+
+
+AUDIT_QUICK = ["chain2", "termchain", "cof"]
+THREADED_QUICK = ["chain2", "multitask", "termchain", "chain2_audit"]
 
 
 def mc_configs(pid: str, tier: str) -> list[dict]:
@@ -822,6 +876,7 @@ def mc_configs(pid: str, tier: str) -> list[dict]:
         out = [c("c13-s1t1-ascode", ["s1t1"], 1, 1, 1, 1, 1),
                c("c13-s1t1-cr2", ["s1t1"], 2, 1, 0, 1, 1),
                c("c13-s2t11-crash", ["s2t11"], 1, 0, 0, 0, 0),
+               c("c13-s1t1-audit", ["s1t1audit"], 1, 1, 0, 0, 0),
                c("c13-s1t1-repaired", ["s1t1"], 1, 1, 1, 1, 1, REPAIRED)]
         if tier == "thorough":
             out += [c("c13-s1t1-all2", ["s1t1"], 2, 1, 1, 1, 1),
@@ -876,7 +931,8 @@ def trace_jobs(pid: str, tier: str, seed: int, refs: dict[str, dict], core_: lis
                                  "opts": {"p_withhold": 0.1, "cancel_at": 1 + sd % steps}})
         return jobs
     # C13
-    for p in core_ + ([q for q in extra_ if q["name"] in ("disabled", "termmid", "stopped")] if not thorough else extra_):
+    for p in core_ + ([q for q in extra_ if q["name"] in ("disabled", "termmid", "stopped") or q.get("audit")]
+                      if not thorough else extra_):
         m = refs[p["name"]]["meta"]
         pts = list(range(1, m["commits"] + 1))
         if not thorough:
@@ -896,6 +952,14 @@ def trace_jobs(pid: str, tier: str, seed: int, refs: dict[str, dict], core_: lis
         fl += [{"cas_conflict": k} for k in range(1, m["cas_points"] + 1)]
         for grp in chunks(fl, 10):
             jobs.append({"kind": "fifo", "prog": p, "faults": grp})
+        if thorough or p["name"] in THREADED_QUICK:
+            # a pool of workers: every delivery on a FRESH thread (own connections, first append of that thread inside
+            # the completion transaction) - fault-free, an exception / a kill right after each in-transaction append
+            tf = [{"threaded": True}]
+            tf += [{"threaded": True, "exc_after_append": [k, "perm"]} for k in range(1, m["appends_txn"] + 1)]
+            tf += [{"threaded": True, "crash_after_append": k} for k, e in enumerate(apps, start=1) if e["intx"]]
+            for grp in chunks(tf, 8):
+                jobs.append({"kind": "fifo", "prog": p, "faults": grp})
         if thorough:
             for grp in chunks(pts, 10):
                 jobs.append({"kind": "fifo", "prog": p, "faults": [{"crash_at": k} for k in grp], "sweeps": 2})
@@ -1121,7 +1185,8 @@ def run(pid: str, tier: str, seed: int) -> int:   # noqa: C901
             rep.violation(what, {"formula": v["formula"], "source": "model" if not r.config.get("repaired") else "model-repaired",
                                  "act": v["act"], "state": v["state"], "program": None},
                           {"pid": pid, "kind": "model", "config": r.config, "formula": v["formula"], "act": v["act"]})
-    never = sorted(a for a in MC_ACTIONS if a != "StartStageReplan" and mc_cov.get(a, 0) == 0)
+    never = sorted(a for a in MC_ACTIONS if a != "StartStageReplan" and mc_cov.get(a, 0) == 0
+                   and not (pid == "C12" and a == "AuditRecord"))      # the reacting subscriber belongs to C13's programs
     if pid == "C12":
         never = [a for a in never if a not in ("Raise", "Rollback", "Crash", "CompleteStageErrorCommit")]  # crash-free configs
     if never and not rep.machinery:
